@@ -9,6 +9,7 @@ import (
 	"math"
 	"math/big"
 	"os"
+	"os/exec"
 	"sort"
 
 	. "adharness/common"
@@ -179,14 +180,20 @@ func exactPD(m [][]float64) bool {
 	return true
 }
 
-const huntTol = 1e-9
+const huntTol64 = 1e-9
 
 // propCheck returns "" when the property holds on this case, else a description.
 func propCheck(c Case) string {
 	n := c.N
+	r := execCase(c) // the history c.Pre first, then the call
+	// the exact values are those of the inputs AS THE ELEMENT TYPE HOLDS THEM; tolerances follow its precision
+	c = effective(c)
+	huntTol, detTol, pdTol := huntTol64, 1e-10, 1e-9
+	if is32(c.et()) {
+		huntTol, detTol, pdTol = 1e-4, 1e-4, 1e-3
+	}
 	as := sub(c.A, c.Msk)
 	k := len(as)
-	r := execCase(c)
 	if len(r.Kind) > 5 && r.Kind[:5] == "other" {
 		return "unexpected outcome " + r.Kind
 	}
@@ -307,7 +314,7 @@ func propCheck(c Case) string {
 			}
 			bound *= math.Max(s, 1)
 		}
-		if r.Kind != "ok" || !(math.Abs(d-r.V) <= 1e-10*bound) {
+		if r.Kind != "ok" || !(math.Abs(d-r.V) <= detTol*bound) {
 			return fmt.Sprintf("determinant %v, exact %v", r.V, d)
 		}
 	case "DetPD":
@@ -315,8 +322,17 @@ func propCheck(c Case) string {
 			return ""
 		}
 		d, _ := ratDet(toRat(c.A)).Float64()
-		if r.Kind != "ok" || !(math.Abs(d-r.V) <= 1e-9*math.Abs(d)) {
+		if c.Log {
+			if r.Kind != "ok" || !(math.Abs(r.V-math.Log(d)) <= pdTol*math.Max(1, math.Abs(math.Log(d)))) {
+				return fmt.Sprintf("log-determinant %v (%s), log of exact determinant %v", r.V, r.Kind, math.Log(d))
+			}
+			return ""
+		}
+		if r.Kind != "ok" || !(math.Abs(d-r.V) <= pdTol*math.Abs(d)) {
 			return fmt.Sprintf("PD determinant %v (%s), exact %v", r.V, r.Kind, d)
+		}
+		if c.ET != "" {
+			return ""
 		}
 		// log scale
 		m := newMatE(c, c.A)
@@ -456,6 +472,75 @@ func dropIndex(c Case, k int) Case {
 	return d
 }
 
+// the case (with its history) executed in a FRESH process: the only reliable way to decide
+// whether a failure needs its history, because state left behind by earlier calls of THIS process
+// cannot be undone
+func failsFresh(dir string, d Case) bool {
+	os.MkdirAll(dir, 0755)
+	path := dir + "/prop1_in.json"
+	b, _ := json.Marshal(map[string]interface{}{"case": d})
+	if os.WriteFile(path, b, 0644) != nil {
+		return false
+	}
+	err := exec.Command(os.Args[0], "--extra", "prop1", "--replay", path, "--out", dir).Run()
+	if ee, ok := err.(*exec.ExitError); ok {
+		return ee.ExitCode() == 3
+	}
+	return false
+}
+
+// prop1: exit code 3 iff the property fails on the single case of the replay file
+func prop1(o Opts) {
+	b, err := os.ReadFile(o.Replay)
+	if err != nil {
+		Die("%v", err)
+	}
+	var rp struct {
+		Case Case `json:"case"`
+	}
+	if err := json.Unmarshal(b, &rp); err != nil {
+		Die("%v", err)
+	}
+	if rp.Case.Msk == nil {
+		rp.Case.Msk, rp.Case.MskNil = allTrue(rp.Case.N), true
+	}
+	if propCheck(rp.Case) != "" {
+		os.Exit(3)
+	}
+}
+
+// shrinkHistory: delta debugging on the history with fresh-process evaluation
+func shrinkHistory(dir string, c Case) Case {
+	fails := func(pre []Case) bool { d := c; d.Pre = pre; return failsFresh(dir, d) }
+	pre := c.Pre
+	for chunk := (len(pre) + 1) / 2; chunk >= 1; chunk /= 2 {
+		for lo := 0; lo < len(pre); {
+			hi := lo + chunk
+			if hi > len(pre) {
+				hi = len(pre)
+			}
+			cand := append(append([]Case{}, pre[:lo]...), pre[hi:]...)
+			if fails(cand) {
+				pre = cand
+			} else {
+				lo = hi
+			}
+		}
+	}
+	c.Pre = pre
+	return c
+}
+
+func flatten(c Case) []Case {
+	out := []Case{}
+	for _, p := range c.Pre {
+		p.Pre = nil
+		out = append(out, p)
+	}
+	c.Pre = nil
+	return append(out, c)
+}
+
 func shrink(c Case) Case {
 	fails := func(d Case) bool { return propCheck(d) != "" }
 	if c.Kind == "Perm" {
@@ -577,16 +662,46 @@ func hunt(o Opts) {
 	var r res
 	seen := map[string]bool{}
 	classOf := func(c Case, f string) string {
-		return fmt.Sprint(c.Kind, c.Mode, c.UT, c.InSituA, prefixMask(c.Msk), c.Dense) + "|" + stripNumbers(f)
+		return fmt.Sprint(c.Kind, c.Mode, c.UT, c.InSituA, prefixMask(c.Msk), c.et(), len(c.Pre) > 0) + "|" + stripNumbers(f)
 	}
-	report := func(c Case) {
-		if seen["pre:"+classOf(c, propCheck(c))] {
+	var hist []Case // every call this process has made so far, in order
+	report := func(c Case, f0 string, before []Case) {
+		if seen["pre:"+classOf(c, f0)] {
 			return
 		}
-		seen["pre:"+classOf(c, propCheck(c))] = true
-		c = shrink(c)
-		f := propCheck(c)
-		key := fmt.Sprint(c.Kind, c.Mode, c.UT, c.InSituA, prefixMask(c.Msk), c.Dense) + "|" + stripNumbers(f)
+		seen["pre:"+classOf(c, f0)] = true
+		plain := c
+		plain.Pre = nil
+		f := f0
+		switch {
+		case failsFresh(o.Out, plain):
+			// the failure does not need any history: shrink in this process, confirm in a fresh one
+			c = plain
+			if d := shrink(c); failsFresh(o.Out, d) {
+				c = d
+			}
+			f = propCheck(c)
+		case len(c.Pre) > 0 && failsFresh(o.Out, c):
+			c = shrinkHistory(o.Out, c) // needs (part of) its own history
+		default:
+			// fails only after calls this process made earlier: they become its history
+			own := flatten(c)[:len(c.Pre)]
+			for _, keep := range []int{600, len(before)} {
+				if keep > len(before) {
+					keep = len(before)
+				}
+				d := c
+				d.Pre = append(append([]Case{}, before[len(before)-keep:]...), own...)
+				if failsFresh(o.Out, d) {
+					c = shrinkHistory(o.Out, d)
+					break
+				}
+			}
+		}
+		if f == "" {
+			f = f0
+		}
+		key := classOf(c, f)
 		if seen[key] || len(r.All) >= 16 {
 			return
 		}
@@ -601,8 +716,11 @@ func hunt(o Opts) {
 	}
 	try := func(c Case) {
 		r.Tried++
-		if propCheck(c) != "" {
-			report(c)
+		before := hist
+		f := propCheck(c)
+		hist = append(hist, flatten(c)...)
+		if f != "" {
+			report(c, f, before)
 		}
 	}
 	if o.Replay != "" {
@@ -623,6 +741,12 @@ func hunt(o Opts) {
 		// every row permutation (all pivot orders) of the fixed matrices, all routines that pivot
 		for _, c := range permStream(o.Tier) {
 			try(c)
+		}
+		// histories: calls of different element types / routines / shared InSitu structs in this process
+		for _, seq := range seqStream(NewRng(o.Seed+15485863), o.N/40) {
+			for _, c := range seq {
+				try(c)
+			}
 		}
 		rng := NewRng(o.Seed + 104729)
 		for k := 0; k < o.N; k++ {
